@@ -1,5 +1,106 @@
-(* C13 - statements only (placeholder while the proofs are being written). *)
-Require Import ZArith List. Require Import IW.JSON.Text.
+(* C13 - JSON text is parsed to the value it denotes and printed text parses back.  Statements only.
+   Model: JSON/Text.v (parser jbn_from_json, printer jbn_as_json), JSON/Utf8.v (utf8proc).  Reference definitions:
+   JSON/TextSpec.v.  Doubles are outside the model (iwstrtod / iwjson_ftoa are oracle parameters `ora` / `fo`):
+   `wf v` excludes JF64, every other kind of node is covered at full strength. *)
+Require Import ZArith List Lia.
+Require Import IW.Lib.CInt IW.Gen.Facts IW.JSON.Val IW.JSON.Utf8 IW.JSON.Text IW.JSON.TextSpec
+               IW.JSON.Utf8_proofs IW.JSON.Text_proofs.
 Import ListNotations. Local Open Scope Z_scope.
-Example C13_smoke : skip_bom [239; 187; 191; 49] = [49].
-Proof. reflexivity. Qed.
+
+(* (1) every valid string body - raw bytes, the eight short escapes, \uXXXX in either case, surrogate pairs -:
+   pass 1 (no buffer) returns the length of pass 2's output, pass 2 stores the UTF-8 encoding of the denoted
+   code points, both stop right after the closing quote *)
+Theorem C13_unescape_correct : forall items rest, Forall item_ok items ->
+  let body := render_all items ++ 34 :: rest in
+  let out := denote_all items in
+  unescape 34 body 0 = Ok (Z.of_nat (length out), [], rest) /\
+  unescape 34 body (Z.of_nat (length out)) = Ok (Z.of_nat (length out), out, rest).
+Proof. exact unescape_correct. Qed.
+Print Assumptions C13_unescape_correct.
+
+Example C13_unescape_example :
+  let items := [SRaw 97; SEsc 114; SU 48 48 101 57; SPair 100 56 51 68 68 69 48 48; SEsc 47; SRaw 195; SRaw 169] in
+  Forall item_ok items /\
+  render_all items = [97; 92;114; 92;117;48;48;101;57; 92;117;100;56;51;68;92;117;68;69;48;48; 92;47; 195;169] /\
+  denote_all items = [97; 13; 195;169; 240;159;152;128; 47; 195;169].
+Proof. cbv zeta. split; [|split; vm_compute; reflexivity]. repeat constructor; vm_compute; intuition discriminate. Qed.
+
+(* utf8proc: validity is "Unicode scalar value", the encoder is RFC 3629, the decoder inverts it and accepts nothing else *)
+Theorem C13_codepoint_valid : forall cp, - 2 ^ 31 <= cp < 2 ^ 31 -> (codepoint_valid cp = true <-> scalar cp).
+Proof. exact codepoint_valid_scalar. Qed.
+Print Assumptions C13_codepoint_valid.
+Theorem C13_encode_char : forall cp, 0 <= cp < 1114112 -> encode_char cp = utf8_enc cp.
+Proof. exact encode_char_spec. Qed.
+Print Assumptions C13_encode_char.
+Theorem C13_iterate_encode : forall cp rest, scalar cp ->
+  iterate (utf8_enc cp ++ rest) = Some (cp, Z.of_nat (length (utf8_enc cp))).
+Proof. exact iterate_enc. Qed.
+Print Assumptions C13_iterate_encode.
+Theorem C13_iterate_sound : forall s cp sz, Forall byte s -> s <> [] -> iterate s = Some (cp, sz) ->
+  scalar cp /\ 1 <= sz <= Z.of_nat (length s) /\ utf8_enc cp = firstn (Z.to_nat sz) s.
+Proof. exact iterate_inv. Qed.
+Print Assumptions C13_iterate_sound.
+
+(* integers exactly: iwitoa (UT/Conv.v) writes the decimal text, strtoll(.., 0) reads it back *)
+Theorem C13_write_int : forall n, - 2 ^ 63 <= n < 2 ^ 63 -> write_int n = Ok (dec n).
+Proof. exact write_int_dec. Qed.
+Print Assumptions C13_write_int.
+Theorem C13_strtoll_dec : forall n rest, - 2 ^ 63 <= n < 2 ^ 63 -> fol rest ->
+  strtoll0 (dec n ++ rest) = (n, length (dec n), false).
+Proof. exact strtoll_dec. Qed.
+Print Assumptions C13_strtoll_dec.
+
+(* (2) parse (print v) = v: every tree of null/bool/int64/byte strings/arrays/objects (any bytes in strings and
+   keys, duplicate keys, any print flags), nesting within the limit.  Without JBL_PRINT_CODEPOINTS printing cannot
+   fail; with it printing fails only on invalid UTF-8 (C13_print_parse covers every successful print).
+   _partial: doubles (JF64) are excluded by `wf` - they are oracle inputs of the model. *)
+Theorem C13_print_parse_partial : forall ora fo pf v t, wf v -> depth v <= JBL_MAX_NESTING_LEVEL ->
+  as_json fo pf v = Ok t -> from_json ora t = Ok (Some v).
+Proof. exact print_parse. Qed.
+Print Assumptions C13_print_parse_partial.
+
+Theorem C13_print_total : forall fo pf v lvl, wf v -> has pf JBL_PRINT_CODEPOINTS = false ->
+  exists t, print_node fo pf lvl v = Ok t.
+Proof. exact print_total. Qed.
+Print Assumptions C13_print_total.
+
+Example C13_print_parse_example :
+  let v := JObj [([107; 0; 1], JArr [JI64 (- 2 ^ 63); JStr [34; 92; 11; 13; 195; 169; 240; 159; 152; 128; 255]; JNull; JBool true]);
+                 ([], JObj []); ([107; 0; 1], JArr [])] in
+  wf v /\ depth v <= JBL_MAX_NESTING_LEVEL /\
+  (forall fo, exists t, as_json fo 0 v = Ok t /\ forall ora, from_json ora t = Ok (Some v)) /\
+  (forall fo, as_json fo (Z.lor JBL_PRINT_CODEPOINTS JBL_PRINT_PRETTY_INDENT4) v = Err E_UTF8).
+Proof.
+  cbv zeta. split; [|split; [vm_compute; discriminate|split]].
+  - cbn [wf fold_right]. unfold bytes_ok.
+    repeat match goal with
+           | |- _ <= _ < _ => lia
+           | |- _ /\ _ => split
+           | |- Forall _ _ => constructor
+           | |- byte_ok _ => unfold byte_ok; lia
+           | |- True => exact I
+           end.
+  - intro fo. eexists. split; [vm_compute; reflexivity|]. intro ora. vm_compute. reflexivity.
+  - intro fo. vm_compute. reflexivity.
+Qed.
+
+(* (4) with JBL_PRINT_CODEPOINTS the text is pure ASCII *)
+Theorem C13_print_ascii : forall fo pf v lvl t, wf v -> has pf JBL_PRINT_CODEPOINTS = true ->
+  print_node fo pf lvl v = Ok t -> Forall (fun b => 0 <= b < 128) t.
+Proof. exact print_ascii. Qed.
+Print Assumptions C13_print_ascii.
+
+Example C13_print_ascii_example :
+  as_json (fun _ => []) JBL_PRINT_CODEPOINTS (JArr [JStr [195; 169; 240; 159; 152; 128; 127; 1]]) =
+  Ok [91; 34; 92;117;48;48;69;57; 92;117;68;56;51;68; 92;117;68;69;48;48; 92;117;48;48;55;70; 92;117;48;48;48;49; 34; 93].
+Proof. vm_compute. reflexivity. Qed.
+
+(* T1: what _jbl_write_json_string writes for each single byte (tables regenerated from the current source by
+   tools/probes/probe_jtext.c) is what the model writes: 256 bytes without flag, 128 with JBL_PRINT_CODEPOINTS *)
+Theorem C13_esc_table : forall b, 0 <= b < 256 -> write_json_string 0 [b] = Ok (nth (Z.to_nat b) jtext_esc_tbl []).
+Proof. exact esc_table_agrees. Qed.
+Print Assumptions C13_esc_table.
+Theorem C13_esc_cp_table : forall b, 0 <= b < 128 ->
+  write_json_string JBL_PRINT_CODEPOINTS [b] = Ok (nth (Z.to_nat b) jtext_esc_cp_tbl []).
+Proof. exact esc_cp_table_agrees. Qed.
+Print Assumptions C13_esc_cp_table.
